@@ -836,6 +836,15 @@ def h10(rep, src):
         a0 = calls[0]["args"][0]
         while a0["k"] == "ref":
             a0 = a0["e"]
+        for _ in range(4):  # a named local (`let names = columns.filter_map(..)`) is read through
+            if a0["k"] != "path" or len(a0["segs"]) != 1:
+                break
+            ls = [l for l in find(fb.body, "let") if l["pat"]["k"] == "ident" and l["pat"]["name"] == a0["segs"][0] and l.get("init") is not None and not l["pat"].get("mut")]
+            if len(ls) != 1:
+                break
+            a0 = ls[0]["init"]
+            while a0["k"] == "ref":
+                a0 = a0["e"]
         b_txt = show(a0, 160)
         if a0["k"] == "mcall" and a0["m"] == "filter_map" and a0["args"] and a0["args"][0]["k"] == "closure":
             inner = {m["m"] for m in find(a0["args"][0]["body"], "mcall")}
